@@ -13,11 +13,11 @@ func main() {
 	o := hx.ParseFlags("C01")
 	res := hx.NewResult(o, "c01: real SQLite + litestream histories, restore==source at every acknowledged instant")
 	res.Rule = "seeded histories of 8-32 ops over {app ins/upd/del/rollback/DDL/drop/VACUUM/incremental_vacuum, app checkpoint PASSIVE|FULL|RESTART|TRUNCATE, long readers, Sync, Replica.Sync, Checkpoint(mode), SyncAndWait (daemon context and request-scoped context), Close+restart, Snapshot, Compact} x page size x auto_vacuum x (MinCheckpointPageN, TruncatePageN, MaxSyncWALBytes); non-trivial = at least one acknowledged instant checked by page-image comparison against the source recovered by SQLite itself; distinct = canonical history text"
-	or := histlib.Oracles{AckRestore: true}
+	or := histlib.Oracles{AckRestore: true, TraceL0: true}
 	if o.Replay != "" {
 		os.Exit(histlib.ReplayMain(o, or))
 	}
-	histlib.RunEngine(o, res, histlib.EngineSpec{ID: "C01", Gen: histlib.GenC01, Oracles: or, NQuick: 200, NThorough: 4000})
+	histlib.RunEngine(o, res, histlib.EngineSpec{ID: "C01", Gen: histlib.GenC01, Oracles: or, NQuick: 200, NThorough: 4000, Extra: histlib.L0Extra(o, "C01")})
 	if err := res.Write(o.Out); err != nil {
 		hx.Fatal(err)
 	}
